@@ -922,7 +922,7 @@ def build_reachability_bitmap(
     commit_sha: ObjectID,
     sha_to_pos: dict[RawObjectID, int],
     object_store: "BaseObjectStore",
-) -> EWAHBitmap:
+) -> EWAHBitmap | None:
     """Build a reachability bitmap for a commit.
 
     The bitmap has a bit set for each object that is reachable from the commit.
@@ -934,7 +934,9 @@ def build_reachability_bitmap(
         object_store: Object store to traverse objects
 
     Returns:
-        EWAH bitmap with bits set for reachable objects
+        EWAH bitmap with bits set for reachable objects, or None if an object
+        reachable from the commit is stored outside the pack: a bitmap has no
+        bit for it, so it could not describe what the commit reaches
     """
     bitmap = EWAHBitmap()
 
@@ -957,6 +959,10 @@ def build_reachability_bitmap(
         # Get the object and traverse its references
         try:
             obj = object_store[sha]
+
+            if raw_sha not in sha_to_pos:
+                # Present, but in another pack or loose
+                return None
 
             if isinstance(obj, Commit):
                 # Add parents and tree
@@ -1156,6 +1162,9 @@ def generate_bitmap(
             progress(f"Building bitmap {i + 1}/{len(selected_commits)}")
 
         bitmap = build_reachability_bitmap(commit_sha, sha_to_pos, object_store)
+        if bitmap is None:
+            # The pack is not closed under reachability for this commit
+            continue
         commit_bitmaps.append((commit_sha, bitmap))
 
     if progress:
